@@ -223,9 +223,12 @@ XM_ImmIdentity(W, W2, o, r, now) == \A a, b \in W2.imm : W2.D[a] = W2.D[b] => a 
 \* however the entry got there (Dirnode's clause covers the Adder only)
 XM_NoWriteEverywhere(W, W2, o, r, now) ==
   \A d \in DOMAIN W2.D : \A n \in DOMAIN W2.D[d] : NoWrite(W2.D[d][n].md) => ~W2.D[d][n].child.w
+\* nothing is uploaded for a read-only directory (nor for a literal-size file); a file that got linked
+\* was uploaded; whether a link that is refused for another reason was preceded by an upload is left open
+UplAllowed(W, o, st) == IF ReadOnlyCall(W, o) \/ o.content = "lit" THEN {FALSE} ELSE IF st = "ok" THEN {TRUE} ELSE BOOLEAN
 XM_AddFile(W, W2, o, r, now) ==
   o.op = "addfile" =>
-    /\ r.upl = (~ReadOnlyCall(W, o) /\ o.content # "lit")
+    /\ r.upl \in UplAllowed(W, o, r.st)
     /\ r.st \in {"ok", "NotWriteableError", "ExistingChildError"}
     /\ (r.st = "ok") => /\ Has(W2.D, o.d, Norm(o.name))
                         /\ W2.D[o.d][Norm(o.name)].child = FileNode(o.content)
